@@ -55,6 +55,37 @@ def dyadic8(x):
     return Fraction(x) * 8 == int(Fraction(x) * 8)
 
 
+# ---------------------------------------------------------------- histories applied to the track before resampling
+# A case may carry "pre": a list of operations performed on the real Track object between its construction and the
+# call to resample(). The model and the oracle are given the FINAL geometry (computed here, independently, from the
+# same list): nothing the track remembers from before (cached abs_curv / ds / speed features, user features with
+# those names, uid, base, ...) may influence the result. Indices are taken modulo the current size.
+FEATURE_NAMES = ["abs_curv", "ds", "speed", "heading", "s", "curv"]
+
+
+def feat_values(seed, n):
+    return [((seed * 7919 + i * 104729) % 2000) / 8.0 - 50.0 for i in range(n)]
+
+
+def apply_pre_pts(pts, pre):
+    """the geometry after the history (list of [x, y, z, t_ms])"""
+    pts = [list(p) for p in pts]
+    for op in pre or []:
+        n = len(pts)
+        k = op[0]
+        if k in ("setx", "sety", "setz") and n:
+            pts[op[1] % n]["xyz".index(k[3])] = float(op[2])
+        elif k == "scale":
+            for q in pts:
+                q[0] *= op[1]; q[1] *= op[1]
+        elif k == "translate":
+            for q in pts:
+                q[0] += op[1]; q[1] += op[2]; q[2] += op[3]
+        elif k == "remove" and n >= 2:
+            del pts[op[1] % n]
+    return pts
+
+
 class P(Prop):
     id = "C05"
     design_ref = "DESIGN.md section 5, C05"
@@ -85,7 +116,8 @@ class P(Prop):
     rule = ("ENU tracks of 1..8 fixes on an integer/dyadic lattice (3-4-5 and axis-parallel legs, repeated positions), strictly increasing "
             "irregular timestamps on a 1/8 s grid from 1970 on (year ends included); steps as number (dividing or not), sorted list of instants "
             "(before/at/after the ends, duplicates), reference track, npts/factor; temporal and spatial; plus a float stream (arbitrary "
-            "coordinates, arbitrary ms) and an error/edge stream (ds<=0, npts=0, other mode, duplicate stamps, empty track). "
+            "coordinates, arbitrary ms), a history stream (abs_curv / ds / speed / heading computed or user features with those names, uid/base/no_data/zone set, "
+            "copy, then in-place edits setX/setY/setZ/scale/translate/removeObs, then resample; model and oracle see the final geometry) and an error/edge stream (ds<=0, npts=0, other mode, duplicate stamps, empty track). "
             "non-trivial = at least 3 fixes and at least 2 expected output observations")
     rel_tol = 1e-9
     include_unsorted = True     # stream of unsorted instant lists (known finding `unsorted-request-list`)
@@ -102,10 +134,57 @@ class P(Prop):
     def exhaustive_scopes(self, tier):
         return ["temporal: every strictly increasing stamp triple in {0..5} s x step in {1/2,1,3/2,2,3,5,7} and x every single instant of the half-second grid -1..6 s",
                 "temporal: every sorted pair of instants of the half-second grid -1..6 s on the stamps (0,2,3,5)",
+                "histories: on one 5-fix lattice track, abs_curv cached (or a user feature abs_curv / ds) followed by every single edit of {scale 1/2,2,3; remove i; setx i; sety i} x ds in {1, 5/2} spatial and step 3/2 temporal",
                 "spatial: every sequence of 2..3 legs from {0, 2 (axis), 5 (3-4-5), 10 (6-8-10)} x ds in {1/2,1,2,5/2,5,7,20}"]
 
     def mk_case(self, kind, pts, mode, delta=None, npts=None, factor=1, feat=False):
         return {"kind": kind, "pts": pts, "mode": mode, "delta": delta, "npts": npts, "factor": factor, "feat": feat}
+
+    def rand_pre(self, rng, pts):
+        """a history on the track object before resample(): cached / user features, in-place edits, bookkeeping fields"""
+        n = len(pts)
+        i = rng.randrange(max(n, 1))
+        edit = lambda: rng.choice([["setx", i, pts[i][0] + rng.choice([-7.0, -2.5, 1.0, 4.0, 12.0])],
+                                   ["sety", i, pts[i][1] + rng.choice([-6.0, -1.5, 2.0, 9.0])],
+                                   ["setz", i, pts[i][2] + rng.choice([-3.0, 5.0])],
+                                   ["scale", rng.choice([0.5, 2.0, 3.0, 0.25])],
+                                   ["remove", i],
+                                   ["translate", rng.choice([-5.0, 3.0]), rng.choice([0.0, 8.0]), rng.choice([0.0, 2.0])]])
+        cache = lambda: rng.choice([["abscurv"], ["abscurv"], ["abscurv"], ["speed"], ["heading"],
+                                    ["feat", rng.choice(FEATURE_NAMES), rng.randrange(1000)],
+                                    ["feat", "abs_curv", rng.randrange(1000)], ["feat", "ds", rng.randrange(1000)]])
+        misc = lambda: rng.choice([["uid", rng.choice(["u1", 7])], ["base", 650000.0, 6860000.0], ["nodata", rng.choice([0, -1, 99999])],
+                                   ["zone", rng.choice([0, 1, -3])], ["copy"]])
+        c = rng.random()
+        if c < 0.45:
+            pre = [cache(), edit()]
+        elif c < 0.6:
+            pre = [cache(), edit(), edit()]
+        elif c < 0.7:
+            pre = [cache()]
+        elif c < 0.8:
+            pre = [cache(), misc(), edit()]
+        elif c < 0.9:
+            pre = [edit(), cache()]
+        else:
+            pre = [misc(), misc()]
+        return pre
+
+    def pre_exhaustive(self):
+        """one lattice track, abs_curv cached, then every single in-place edit of a small menu; both modes"""
+        out = []
+        base = 86400000 * 400
+        pts = [[0.0, 0.0, 0.0, base], [3.0, 4.0, 2.0, base + 4000], [3.0, 4.0, 2.0, base + 6000],
+               [9.0, 12.0, -1.0, base + 11000], [9.0, 2.0, 4.0, base + 21000]]
+        edits = [["scale", k] for k in (0.5, 2.0, 3.0)] + [["remove", i] for i in range(5)]
+        edits += [[op, i, v] for i in range(5) for op, v in (("setx", 15.0), ("sety", -3.0))]
+        for cache in (["abscurv"], ["feat", "abs_curv", 3], ["feat", "ds", 5]):
+            for e in [None] + edits:
+                pre = [cache] + ([e] if e else [])
+                for ds in (1.0, 2.5):
+                    c = self.mk_case("x-pre-spatial", pts, 1, {"num": ds}); c["pre"] = pre; out.append(c)
+                c = self.mk_case("x-pre-temporal", pts, 2, {"num": 1.5}); c["pre"] = pre; out.append(c)
+        return out
 
     def exhaustive(self):
         out = []
@@ -250,6 +329,24 @@ class P(Prop):
                     out.append(self.mk_case("spatial-div", pts, 1, {"num": L / k}))
             else:
                 out.append(self.mk_case("temporal-div", pts, 2, {"num": (abs_time(pts[-1][3]) - abs_time(pts[0][3])) / min(k, 60)}))
+        # histories: something cached or stored on the track object, then in-place edits, then resample()
+        out += self.pre_exhaustive()
+        for _ in range(n // 2):
+            pts = self.rand_track(rng, n=rng.choice([2, 3, 4, 4, 5, 6, 8]))
+            c = rng.random()
+            if c < 0.6:
+                pre = self.rand_pre(rng, pts)
+                fin = apply_pre_pts(pts, pre)
+                cs = self.mk_case("pre-spatial", pts, 1, {"num": self.rand_step_s(rng, fin)})
+            elif c < 0.85:
+                pre = self.rand_pre(rng, pts)
+                fin = apply_pre_pts(pts, pre)
+                cs = self.mk_case("pre-temporal", pts, 2, rng.choice([{"num": self.rand_step_t(rng, fin)}, {"list": self.rand_instants(rng, fin)}]))
+            else:
+                pre = self.rand_pre(rng, pts)
+                cs = self.mk_case("pre-npts", pts, rng.choice([1, 2]), None, rng.choice([None, 2, 3, 5, 9]), rng.choice([1, 2]))
+            cs["pre"] = pre
+            out.append(cs)
         # edges and errors (the model mirrors them; the oracle applies only where the property's preconditions hold)
         for _ in range(n // 6):
             pts = self.rand_track(rng, n=rng.choice([1, 1, 2, 3, 4]))
@@ -303,11 +400,59 @@ class P(Prop):
 
     def overshoots(self, case):
         """spatial mode, numeric step: the last abscissa int(L/ds)*ds, computed in floats, exceeds the float length L"""
+        case = self.eff(case)
         d = case["delta"]
         if case["mode"] != 1 or d is None or "num" not in d or not d["num"] > 0:
             return False
         L = self.float_len2d(case["pts"])
         return int(L / d["num"]) * d["num"] > L
+
+    def eff(self, case):
+        """the case as the model and the oracle see it: final geometry, no history"""
+        if not case.get("pre"):
+            return case
+        c = getattr(self, "_eff_cache", None)
+        if c is not None and c[0] is case:
+            return c[1]
+        e = dict(case, pts=apply_pre_pts(case["pts"], case["pre"]))
+        del e["pre"]
+        self._eff_cache = (case, e)
+        return e
+
+    def apply_pre_track(self, tr, pre):
+        """the same history on the real Track object"""
+        from tracklib.algo import cinematics as C
+        for op in pre or []:
+            n = len(tr)
+            k = op[0]
+            if k == "abscurv" and n:
+                C.computeAbsCurv(tr)
+            elif k == "speed" and n >= 3:
+                C.estimate_speed(tr)
+            elif k == "heading" and n >= 2:
+                C.estimate_heading(tr)
+            elif k == "feat" and n:
+                tr.createAnalyticalFeature(op[1], feat_values(op[2], n))
+            elif k in ("setx", "sety", "setz") and n:
+                pos = tr.getObs(op[1] % n).position
+                {"setx": pos.setX, "sety": pos.setY, "setz": pos.setZ}[k](float(op[2]))
+            elif k == "scale":
+                tr.scale(op[1])
+            elif k == "translate":
+                tr.translate(op[1], op[2], op[3])
+            elif k == "remove" and n >= 2:
+                tr.removeObs(op[1] % n)
+            elif k == "uid":
+                tr.uid = op[1]; tr.tid = op[1]
+            elif k == "base":
+                tr.base = self.ENU(op[1], op[2], 0.0)
+            elif k == "nodata":
+                tr.no_data_value = op[1]
+            elif k == "zone" and n:
+                tr.setTimeZone(op[1])
+            elif k == "copy":
+                tr = tr.copy()
+        return tr
 
     def len3d_exact(self, pts):
         return all(is_sq(Fraction(b[0] - a[0]) ** 2 + Fraction(b[1] - a[1]) ** 2 + Fraction(b[2] - a[2]) ** 2) for a, b in zip(pts, pts[1:]))
@@ -333,6 +478,14 @@ class P(Prop):
         return d.get("list", d.get("track")) if d and "num" not in d else None
 
     def describe(self, case):
+        pre = case.get("pre")
+        case = self.eff(case)
+        t = self._describe(case)
+        if pre is not None:
+            t["pre"] = "+".join(op[0] if op[0] != "feat" else "feat:" + op[1] for op in pre) or "-"
+        return t
+
+    def _describe(self, case):
         t = {"kind": case["kind"], "n": len(case["pts"]), "mode": case["mode"], "scalar": "rat+float" if self.rat_ok(case) else "float"}
         e = self.expected(case)
         if e is not None:
@@ -340,6 +493,7 @@ class P(Prop):
         return t
 
     def nontrivial(self, case):
+        case = self.eff(case)
         e = self.expected(case)
         return e is not None and len(case["pts"]) >= 3 and len(e["req"]) >= 2
 
@@ -366,9 +520,15 @@ class P(Prop):
         return n != 0 and not (case["pts"][-1][3] - case["pts"][0][3]) / n > 0
 
     def impl(self, case):
-        if self.hangs(case):
+        if self.hangs(self.eff(case)):
             return {"err": "err:nonterm"}
         tr = self.build(case["pts"], case["feat"])
+        geom_ok = True
+        if case.get("pre"):
+            tr = self.apply_pre_track(tr, case["pre"])
+            want = self.eff(case)["pts"]
+            have = [[float(tr.getX(i)), float(tr.getY(i)), float(tr.getZ(i))] for i in range(len(tr))]
+            geom_ok = len(have) == len(want) and all(close(h, w[:3], 1e-12) for h, w in zip(have, want))
         d = case["delta"]
         if d is None:
             delta = None
@@ -386,7 +546,10 @@ class P(Prop):
             f = [ts.year, ts.month, ts.day, ts.hour, ts.min, ts.sec, ts.ms]
             ok = all(isinstance(v, int) for v in f) and wellformed(f)
             pts.append([float(tr.getX(i)), float(tr.getY(i)), float(tr.getZ(i)), ms_of_fields(f) if ok else None, f])
-        return {"pts": pts, "feat": sorted(tr.getListAnalyticalFeatures())}
+        out = {"pts": pts, "feat": sorted(tr.getListAnalyticalFeatures())}
+        if not geom_ok:
+            out["geom_mismatch"] = True     # the harness's own replay of the history disagrees with the track: harness bug
+        return out
 
     # ------------------------------------------------------------------ model
     def req_line(self, case, sc):
@@ -404,6 +567,7 @@ class P(Prop):
                                                      case["factor"], num(G))
 
     def requests(self, case):
+        case = self.eff(case)
         ls = [self.req_line(case, "f")]
         if self.rat_ok(case):
             ls.append(self.req_line(case, "q"))
@@ -433,6 +597,9 @@ class P(Prop):
         return out
 
     def compare(self, case, impl_out, model_out):
+        if isinstance(impl_out, dict) and impl_out.get("geom_mismatch"):
+            return "harness: geometry after the history differs from the harness's own computation"
+        case = self.eff(case)
         for sc, m in model_out.items():
             msg = self.compare_one(case, impl_out, m)
             if msg:
@@ -579,6 +746,7 @@ class P(Prop):
         return out
 
     def spec(self, case, out):
+        case = self.eff(case)
         exp = self.expected(case)
         if exp is None:
             return None
@@ -608,6 +776,7 @@ class P(Prop):
         return None
 
     def classify(self, case, impl_out, msg):
+        case = self.eff(case)
         l = self.instants(case)
         if case["mode"] == 2 and l is not None and any(b < a for a, b in zip(l, l[1:])):
             return "unsorted-request-list"
@@ -617,6 +786,10 @@ class P(Prop):
 
     # ------------------------------------------------------------------ shrinking / search
     def shrink(self, case):
+        pre = case.get("pre")
+        if pre:
+            for i in range(len(pre)):
+                yield dict(case, pre=pre[:i] + pre[i + 1:])
         pts = case["pts"]
         if len(pts) > 2:
             for i in range(len(pts)):
